@@ -643,6 +643,77 @@ def _cu_rechunk(a, p):
 reg("rechunk", 1, _gen_rechunk, lambda a, p: a, _cu_rechunk, weight=6, tags=("rechunk",))
 
 
+# -- block view: x.rechunk(c).blocks[idx] (the chunk grid is fixed by the step itself, so the NumPy shadow knows it) ---
+
+def _gen_blocks(tp, a):
+    if a.ndim == 0 or a.size == 0 or a.ndim > 3:
+        return None
+    from gen.programs import gen_chunks as gc
+
+    chunks = gc(tp, a.shape)
+    idx = []
+    for n, c in zip(a.shape, chunks):
+        nb = -(-n // max(c, 1))
+        k = tp.weighted([("all", 4), ("int", 2), ("slice", 3), ("rev", 2), ("list", 2)])
+        if len(idx) and any(e[0] == "list" for e in idx) and k == "list":
+            k = "slice"
+        if k == "all":
+            idx.append(["all"])
+        elif k == "int":
+            idx.append(["int", tp.randint(-nb, nb - 1)])
+        elif k == "slice":
+            lo = tp.randint(0, nb - 1)
+            idx.append(["slice", lo, tp.randint(lo + 1, nb), tp.choice([1, 1, 2])])
+        elif k == "rev":
+            idx.append(["slice", None, None, -1])
+        else:
+            idx.append(["list", [tp.randint(0, nb - 1) for _ in range(tp.randint(1, 3))]])
+    return dict(chunks=list(chunks), idx=idx)
+
+
+def _blocks_index(p):
+    out = []
+    for e in p["idx"]:
+        if e[0] == "all":
+            out.append(slice(None))
+        elif e[0] == "int":
+            out.append(e[1])
+        elif e[0] == "slice":
+            out.append(slice(e[1], e[2], e[3]))
+        else:
+            out.append(list(e[1]))
+    return tuple(out)
+
+
+def _np_blocks(a, p):
+    """Blocks of the regular grid p['chunks'] selected per axis, concatenated (integer indices keep the axis,
+    like cubed's / dask's block view)."""
+    out = a
+    for ax, (c, sel) in enumerate(zip(p["chunks"], _blocks_index(p))):
+        n = a.shape[ax]
+        c = max(c, 1)
+        nb = -(-n // c)
+        ids = list(range(nb))
+        if isinstance(sel, int):
+            ids = [ids[sel]]
+        elif isinstance(sel, slice):
+            ids = ids[sel]
+        else:
+            ids = [ids[i] for i in sel]
+        parts = [np.take(out, np.arange(i * c, min((i + 1) * c, n)), axis=ax) for i in ids]
+        if not parts:
+            raise ValueError("empty block selection")
+        out = np.concatenate(parts, axis=ax)
+    return out
+
+
+def _cu_blocks(a, p):
+    return a.rechunk(tuple(p["chunks"])).blocks[_blocks_index(p)]
+
+
+reg("blocks", 1, _gen_blocks, _np_blocks, _cu_blocks, weight=2, tags=("manip", "rechunk"))
+
+
 def _gen_merge_chunks(tp, a):
     # chunks must be a multiple of the current chunk size: the cubed shape is
     # not known to the NumPy shadow, so the multiple is resolved at cubed time
